@@ -199,11 +199,11 @@ func atomsOf(f *model.File) *atomSet {
 }
 
 // planEnvs builds the environments one program is run under.
-func planEnvs(prop string, f *model.File, runSeed uint64, dom int, thorough bool) envPlan {
+func planEnvs(prop string, f *model.File, runSeed uint64, dom int, vals []int, thorough bool) envPlan {
 	r := rng.New(rng.Sub(runSeed, "env"))
 	biases := []float64{0.2, 0.5, 0.8}
 	base := func(i int) env.Env {
-		return env.Env{Seed: rng.H(runSeed, 0xe17, uint64(i)), Bias: biases[r.Intn(3)], Dom: dom}
+		return env.Env{Seed: rng.H(runSeed, 0xe17, uint64(i)), Bias: biases[r.Intn(3)], Dom: dom, Vals: vals}
 	}
 	var p envPlan
 	k := 6
@@ -225,8 +225,18 @@ func planEnvs(prop string, f *model.File, runSeed uint64, dom int, thorough bool
 		for i := 0; i < nb && total <= limit; i++ {
 			total *= 2
 		}
+		vdom := dom
+		if len(vals) > 0 {
+			vdom = len(vals)
+		}
+		valOf := func(i int) int {
+			if len(vals) > 0 {
+				return vals[i]
+			}
+			return i
+		}
 		for i := 0; i < nv && total <= limit; i++ {
-			total *= dom
+			total *= vdom
 		}
 		if total <= limit {
 			p.exhaustive = true
@@ -239,8 +249,8 @@ func planEnvs(prop string, f *model.File, runSeed uint64, dom int, thorough bool
 					y >>= 1
 				}
 				for _, v := range a.vars {
-					e.Overlay0[v] = y % dom
-					y /= dom
+					e.Overlay0[v] = valOf(y % vdom)
+					y /= vdom
 				}
 				p.envs = append(p.envs, e)
 			}
@@ -252,7 +262,7 @@ func planEnvs(prop string, f *model.File, runSeed uint64, dom int, thorough bool
 					e.Overlay0[b] = r.Intn(2)
 				}
 				for _, v := range a.vars {
-					e.Overlay0[v] = r.Intn(dom)
+					e.Overlay0[v] = valOf(r.Intn(vdom))
 				}
 				p.envs = append(p.envs, e)
 			}
@@ -265,6 +275,16 @@ func planEnvs(prop string, f *model.File, runSeed uint64, dom int, thorough bool
 		}
 		sort.Strings(sv)
 		nval := dom + 4 // case literals range over 0..dom+2, plus one value nothing uses
+		stickyVal := func(i int) int { return i }
+		if len(vals) > 0 {
+			nval = len(vals) + 3
+			stickyVal = func(i int) int {
+				if i < len(vals) {
+					return vals[i]
+				}
+				return 100000 + i // the unused case literals of the big-number alphabet, and one beyond
+			}
+		}
 		total := 1
 		for i := 0; i < len(sv) && total <= limit; i++ {
 			total *= nval
@@ -276,7 +296,7 @@ func planEnvs(prop string, f *model.File, runSeed uint64, dom int, thorough bool
 				e.Sticky = map[string]int{}
 				y := x
 				for _, v := range sv {
-					e.Sticky[v] = y % nval
+					e.Sticky[v] = stickyVal(y % nval)
 					y /= nval
 				}
 				p.envs = append(p.envs, e)
@@ -599,7 +619,7 @@ func CosimWorker(pm *Params) (*Stats, []*Failure) {
 		lm := or.Bool()
 		layoutSeed := rng.Sub(runSeed, "layout")
 		p := buildProgram(f, style, layoutSeed, lm)
-		plan := planEnvs(prop, f, runSeed, cfg.Dom, pm.Thorough)
+		plan := planEnvs(prop, f, runSeed, cfg.Dom, cfg.Vals, pm.Thorough)
 		cc.rejected = ""
 		cc.digest = &Digest{}
 		before := cc.evals
